@@ -29,7 +29,8 @@ theorem foldNode_sound (e : Expr) (s : EState) :
     · split <;> simp [applyAction, eval]
   · -- logical
     rename_i op l rhs
-    cases op <;> simp only [eval, valTruthy, valNullish] <;> split <;> simp_all [applyAction, eval]
+    cases op <;> simp only [eval, valTruthy, valNullish] <;> split <;>
+      (first | (simp_all [applyAction, eval]; done) | (cases rhs <;> simp_all [applyAction, eval]))
   · -- binary on two literals
     rename_i op a b
     cases h : S.binop op a b <;> simp [applyAction, eval, toPrim_lit, h]
